@@ -1044,6 +1044,6 @@ META = dict(
         "horizontal window |column - reference| <= h, and with jacks avoided one note per distinct column; "
         "combinations() enumerates groups[i:i+size] for every i (rational-function comparison of the range bounds), "
         "builds the full cartesian product and applies each filter to its own field; the chord filter must test "
-        "membership of the whole size row; option flags are distinct single bits. The type filter matches with issubclass, so the tag classes the pattern assigns (note classes, HoldTail) must be unrelated (R6)."),
+        "membership of the whole size row; option flags are distinct single bits. The type filter matches with issubclass, so the tag classes the pattern assigns (note classes, HoldTail) must be unrelated (R6). An excluding template type filter with one tag among open positions is expanded to every position (R11)."),
     not_decided="bisect bounds on ties at the window edge, completeness of numpy.meshgrid/reshape (trusted), hash collisions of the combo filter for columns >= keys",
 )
